@@ -1,19 +1,136 @@
 package main
 
 import (
+	"flag"
 	"fmt"
-	"golang.org/x/tools/go/packages"
-	"golang.org/x/tools/go/ssa"
-	"golang.org/x/tools/go/ssa/ssautil"
+	"os"
+	"path/filepath"
+	"runtime"
+	"strings"
+	"time"
 )
 
+func usage() {
+	fmt.Fprintln(os.Stderr, `usage:
+  govc check <PROP> [--tier quick|thorough] [--repo /repo] [--verif /verif]
+  govc func <key>... [--keep]      (development: verify single functions verbosely)
+  govc list                        (contracts and their properties)`)
+	os.Exit(2)
+}
+
 func main() {
-	cfg := &packages.Config{Mode: packages.LoadAllSyntax, Dir: "/repo", BuildFlags: []string{"-tags=verif"}}
-	pkgs, err := packages.Load(cfg, ".")
-	if err != nil {
-		panic(err)
+	if len(os.Args) < 2 {
+		usage()
 	}
-	prog, spkgs := ssautil.AllPackages(pkgs, ssa.GlobalDebug)
-	prog.Build()
-	fmt.Println(len(spkgs), spkgs[0].Pkg.Path())
+	cmd := os.Args[1]
+	fs := flag.NewFlagSet(cmd, flag.ExitOnError)
+	repo := fs.String("repo", "/repo", "repository root")
+	verif := fs.String("verif", "/verif", "verification root")
+	tier := fs.String("tier", "", "quick|thorough")
+	keep := fs.Bool("keep", false, "keep SMT files")
+	verbose := fs.Bool("v", false, "verbose")
+	var pos []string
+	args := os.Args[2:]
+	for len(args) > 0 {
+		if strings.HasPrefix(args[0], "-") {
+			break
+		}
+		pos = append(pos, args[0])
+		args = args[1:]
+	}
+	fs.Parse(args)
+	pos = append(pos, fs.Args()...)
+	if *tier == "" {
+		*tier = os.Getenv("VERIF_TIER")
+		if *tier == "" {
+			*tier = "quick"
+		}
+	}
+	start := time.Now()
+	eng, err := loadEngine(*repo)
+	if err != nil {
+		fmt.Fprintln(os.Stderr, "load:", err)
+		os.Exit(3)
+	}
+	loadS := time.Since(start).Seconds()
+	switch cmd {
+	case "list":
+		for _, k := range eng.cf.Order {
+			c := eng.cf.Contracts[k]
+			ex := "ok"
+			if eng.fnByKey[k] == nil && eng.ifaceMethod(k) == nil {
+				ex = "MISSING"
+			}
+			fmt.Printf("%-50s %-20s %s\n", k, strings.Join(c.Props, ","), ex)
+		}
+	case "func":
+		work, _ := os.MkdirTemp("", "govc")
+		if !*keep {
+			defer os.RemoveAll(work)
+		}
+		var vcs []*VC
+		for _, k := range pos {
+			var vc *VC
+			var err error
+			if strings.HasPrefix(k, "lemma:") {
+				vc, err = eng.verifyLemma(strings.TrimPrefix(k, "lemma:"))
+			} else {
+				vc, err = eng.verifyFunc(k)
+			}
+			if err != nil {
+				fmt.Fprintln(os.Stderr, err)
+				os.Exit(3)
+			}
+			vcs = append(vcs, vc)
+		}
+		rs := solveAll(vcs, solveOpts{workDir: work, quickS: 3, fullS: 10, parallel: runtime.NumCPU()})
+		bad := 0
+		for _, r := range rs {
+			ok := r.Status == "unsat"
+			if r.Obl.Kind == "cover" {
+				ok = r.Status == "sat"
+			}
+			mark := "ok  "
+			if !ok {
+				mark = "FAIL"
+				bad++
+			}
+			if !ok || *verbose {
+				fmt.Printf("%s %-8s %-18s %6dms %s :: %s  [%s:%d] %s\n", mark, r.Status, r.Backend, r.Ms, r.Obl.Func, r.Obl.Name, filepath.Base(r.Obl.Pos.Filename), r.Obl.Pos.Line, firstLine(r.Output))
+				if !ok && *keep {
+					fmt.Printf("     file: %s\n", r.File)
+				}
+			}
+		}
+		for _, vc := range vcs {
+			for _, a := range sortedKeys(vc.abstr) {
+				fmt.Printf("abstracted[%s]: %s\n", vc.fnKey, a)
+			}
+		}
+		fmt.Printf("%d obligations, %d failed, load %.1fs total %.1fs\n", len(rs), bad, loadS, time.Since(start).Seconds())
+		if *keep {
+			fmt.Println("work dir:", work)
+		}
+		if bad > 0 {
+			os.Exit(1)
+		}
+	case "check":
+		if len(pos) != 1 {
+			usage()
+		}
+		os.Exit(runCheck(eng, pos[0], *tier, *verif, loadS, start))
+	default:
+		usage()
+	}
+}
+
+func firstLine(s string) string {
+	s = strings.TrimSpace(s)
+	if i := strings.Index(s, "\n"); i >= 0 {
+		s = s[:i]
+	}
+	if len(s) > 160 {
+		s = s[:160]
+	}
+	return s
 }
